@@ -245,8 +245,11 @@ def run_script(script, backend, fmt="graphml"):
     """Execute a list of abstract ops on a fresh store; return the trace (init state + one line per op)."""
     r = StoreRunner(backend, fmt)
     steps = []
+    prev = None
     for o in script:
         out, res = r.apply(o)
-        steps.append({"op": o, "out": out, "res": res, "state": r.project()})
+        st = r.project()
+        steps.append({"op": o, "out": out, "res": res, "same": st == prev, "state": {} if st == prev else st})
+        prev = st
     return {"backend": backend, "fmt": fmt, "init": {"nodes": [], "edges": [], "dup": [], "alloc_ok": True, "lock_free": True},
             "steps": steps}
